@@ -1,0 +1,22 @@
+//go:build verif
+
+package soymsg
+
+// Contracts for the verification machinery in /verif (comment-only file).
+
+// C13: placeholder names must not depend on map iteration order. Step 2 walks
+// the base names in first-seen order (a slice); steps 3 and 4 range over maps.
+//@ func setPlaceholderNames
+//@   props C13
+//@   nosafety
+//@   modifies *
+//@   loop 0
+//@     noterm
+//@   loop 4
+//@     noterm
+//@   loop 5
+//@     orderassume forallof(a, string, forallof(b, string, haskey(nameToRepNodes, a) && haskey(nameToRepNodes, b) && a != b ==> nameToRepNodes[a] != nameToRepNodes[b]))
+//@   loop 6
+//@     orderassume forallof(a, ast.Node, haskey(equivNodeToRepNodes, a) ==> !haskey(equivNodeToRepNodes, equivNodeToRepNodes[a]))
+//@   loop 7
+//@     exitany -- the panicking arm is for node types phNodes never queues; which offending node is named first is irrelevant
